@@ -50,11 +50,15 @@ def prove(axioms, hyps, goal, z3_ms=None, cvc5_ms=None, want_model=True):
     return Result('undecided', backend='z3+cvc5', time=dt + dt2, reason=f'z3: {reason}; cvc5: {ans}')
 
 
+class VacuousAxioms(RuntimeError): pass
+
 class Prover:
     """one incremental solver per target (axioms asserted once, each obligation in its own push/pop frame); an `unknown`
     is retried from scratch with a fresh solver (and then cvc5) by prove() - never mapped to a verdict"""
     def __init__(self, axioms, z3_ms=None):
         self.axioms = list(axioms); self.s = z3.Solver(); self.s.set('timeout', z3_ms or Z3_MS); self.s.add(*self.axioms)
+        # vacuity guard: contradictory axioms would prove everything
+        if self.s.check() == z3.unsat: raise VacuousAxioms('vacuity guard: the axioms of this target are contradictory (every obligation would be proved)')
     def prove(self, hyps, goal):
         s = self.s; s.push()
         try:
